@@ -540,7 +540,7 @@ impl Reg {
 
                 let n_sum = n.iter().sum::<R>();
 
-                let n = (0..self.psi.len())
+                let n = (0..p.len())
                     .map(|idx| {
                         ((c * p[idx] + c_sqrt * (n[idx] - n_sum * p[idx])).round() as Z).max(0) as N
                     })
@@ -564,7 +564,7 @@ impl Reg {
 
                 let n_sum = n.par_iter().sum::<R>();
 
-                let n = (0..self.psi.len())
+                let n = (0..p.len())
                     .map(|idx| {
                         ((c * p[idx] + c_sqrt * (n[idx] - n_sum * p[idx])).round() as Z).max(0) as N
                     })
